@@ -73,6 +73,8 @@ M('C13', 'remove-all-forgets-range-roots', 'internal/mithril-persistence/src/dat
 """, ['rollback:remove-all'], 'the remove-everything arm leaves the block range roots of the abandoned fork')
 M('C05', 'nesting-bound-removed', 'internal/mithril-merkle-tree/src/merkle_map.rs',
   'let result = if nested_levels > MAX_NESTED_LEVELS {', 'let result = if nested_levels > MAX_NESTED_LEVELS && false {', ['recursive-wire-type'], 'F17 comes back: the nesting bound is dead')
+M('C09', 'duplicate-positions-accepted', 'internal/mithril-merkle-tree/src/merkle_tree.rs',
+  '            .all(|(position, _)| positions.insert(*position))', '            .all(|(position, _)| { positions.insert(*position); true })', ['mkproof:unique-positions'], 'F18 comes back')
 
 # ---------------------------------------------------------------- C02
 CLERK = STM + 'proof_system/concatenation/clerk.rs'
